@@ -179,6 +179,16 @@ var probePatches = [][]byte{
 	[]byte(`[{"op":"replace","path":"","value":null},{"op":"add","path":"/0","value":1}]`),
 	[]byte(`[{"op":"add","path":"/a/b/0/c","value":null},{"op":"move","from":"/a","path":"/b"},{"op":"test","path":"/b","value":{"b":[{"c":null}]}}]`),
 	[]byte(`[{"op":"copy","from":"/0","path":"/1"},{"op":"test","path":"/1"},{"op":"replace","path":"/0","value":[null]},{"op":"test","path":"/0","value":[null]}]`),
+	// the root replaced by null, then every kind of operation with one-token and multi-token paths
+	[]byte(`[{"op":"replace","path":"","value":null},{"op":"add","path":"/3/x","value":1}]`),
+	[]byte(`[{"op":"replace","path":"","value":null},{"op":"add","path":"/a/b/-","value":1}]`),
+	[]byte(`[{"op":"replace","path":"","value":null},{"op":"remove","path":"/0/a"}]`),
+	[]byte(`[{"op":"replace","path":"","value":null},{"op":"replace","path":"/a/0","value":1}]`),
+	[]byte(`[{"op":"replace","path":"","value":null},{"op":"move","from":"/0/a","path":"/1"}]`),
+	[]byte(`[{"op":"replace","path":"","value":null},{"op":"copy","from":"","path":"/a/b"}]`),
+	[]byte(`[{"op":"replace","path":"","value":null},{"op":"test","path":"/a/b","value":null}]`),
+	[]byte(`[{"op":"add","path":"","value":null},{"op":"add","path":"/a/b","value":1},{"op":"copy","from":"","path":"/c"}]`),
+	[]byte(`[{"op":"add","path":"","value":[null]},{"op":"copy","from":"/0","path":"/-"},{"op":"test","path":"","value":[null,null]},{"op":"move","from":"/0","path":"/0/x"}]`),
 }
 
 var probeOpts = []lib.Opts{
